@@ -463,6 +463,8 @@ def nat_restructure(h):
             lo = h.rng.randint(0, nres - 1)
             hi = h.rng.randint(lo, nres - 1)
             sel = ['r%d' % k for k in range(lo, hi + 1)]
+            # the target may be given the name of one of the resources it replaces (the 'rename columns in place' idiom)
+            tname = 'cat' if h.rng.random() < 0.6 else h.rng.choice(sel)
             allc = sorted({c for k in range(lo, hi + 1) for c in cols[k]})
             fields = {c: [] for c in allc}
             rows_in = [r for k in range(lo, hi + 1) for r in data[k]]
@@ -473,23 +475,44 @@ def nat_restructure(h):
                 if not any(tgtc in r and alias in r for r in rows_in):
                     fields = {c: [] for c in allc if c != alias}
                     fields[tgtc] = [alias]
-                    got = h.run(lambda: Flow(*base(), concatenate(fields, dict(name='cat'), resources=sel)).results())
+                    got = h.run(lambda: Flow(*base(), concatenate(fields, dict(name=tname), resources=sel)).results())
                     keep = [c for c in allc if c != alias]
                     exp_rows = [{c: (r.get(c) if c != tgtc else (r.get(tgtc) if r.get(tgtc) is not None else r.get(alias)))
                                  for c in keep} for r in rows_in]
                     if any(all(v is None for v in r.values()) for r in rows_in):
                         continue
                     ok = got[0] == 'ok' and got[1][0][lo] == [{c: r[c] for c in got[1][0][lo][0]} for r in exp_rows] if exp_rows else got[0] == 'ok'
-                    h.check(ok, P + 'concatenate.py::concatenate.func', (cfg, sel, fields), exp_rows, got[:2] if got[0] != 'ok' else got[1][0][lo])
+                    h.check(ok, P + 'concatenate.py::concatenate.func', (cfg, sel, fields, tname), exp_rows, got[:2] if got[0] != 'ok' else got[1][0][lo])
                     continue
             if any(all(v is None for v in r.values()) for r in rows_in):
                 continue      # documented: an all-null row is rejected by concatenate
-            got = h.run(lambda: Flow(*base(), concatenate(fields, dict(name='cat'), resources=sel)).results())
+            got = h.run(lambda: Flow(*base(), concatenate(fields, dict(name=tname), resources=sel)).results())
             exp_rows = [{c: r.get(c) for c in allc} for r in rows_in]
             exp_data = data[:lo] + [exp_rows] + data[hi + 1:]
-            exp_names = ['r%d' % k for k in range(lo)] + ['cat'] + ['r%d' % k for k in range(hi + 1, nres)]
+            exp_names = ['r%d' % k for k in range(lo)] + [tname] + ['r%d' % k for k in range(hi + 1, nres)]
             ok = got[0] == 'ok' and got[1][0] == exp_data and [r['name'] for r in got[1][1].descriptor['resources']] == exp_names
-            h.check(ok, P + 'concatenate.py::concatenate.func', (cfg, sel), (exp_names, exp_data), got[:2] if got[0] != 'ok' else (got[1][0],))
+            h.check(ok, P + 'concatenate.py::concatenate.func', (cfg, sel, tname), (exp_names, exp_data), got[:2] if got[0] != 'ok' else (got[1][0],))
+
+
+def nat_concatenate_in_place(h):
+    """concatenate used to rename columns of ONE resource in place: the target carries the name of the resource it replaces"""
+    from dataflows import Flow, concatenate, update_resource
+    for _ in range(h.n(6, 60)):
+        n = h.rng.randint(1, 4)
+        nother = h.rng.randint(0, 2)
+        rows = [{'id': i, 'f': 'f%d' % i, 'c': 'c%d' % i} for i in range(n)]
+        others = [[{'z': k * 10 + i} for i in range(h.rng.randint(0, 2))] for k in range(nother)]
+        pos = h.rng.randint(0, nother)
+        srcs = others[:pos] + [rows] + others[pos:]
+        steps = []
+        for k, rs in enumerate(srcs):
+            steps += [[dict(r) for r in rs], update_resource(-1, name=('main' if k == pos else 'o%d' % k))]
+        fields = {'id': [], 'name': ['f'], 'place': ['c']}
+        tname = h.rng.choice(['main', 'renamed'])
+        got = h.run(lambda: Flow(*steps, concatenate(dict(fields), dict(name=tname), resources='main')).results())
+        want = [{'id': r['id'], 'name': r['f'], 'place': r['c']} for r in rows]
+        ok = got[0] == 'ok' and got[1][0][pos] == want and [len(x) for x in got[1][0]] == [len(x) for x in srcs]
+        h.check(ok, P + 'concatenate.py::concatenator', (tname, n, pos), want, got[:2] if got[0] != 'ok' else got[1][0][pos])
 
 
 def nat_duplicate_aliasing(h):
@@ -512,5 +535,5 @@ ITEMS = [
     Item('duplicate.func', sym_duplicate_func, [], P + 'duplicate.py::duplicate.func'),
     Item('delete_resource.func', K10.sym_delete_resource, [], P + 'delete_resource.py::delete_resource.func'),
     Item('appenders', sym_appenders, [], 'dataflows/helpers/iterable_loader.py::iterable_loader.process_resources'),
-    Item('pipelines', None, [('conservation', nat_restructure), ('duplicate-aliasing', nat_duplicate_aliasing)], None),
+    Item('pipelines', None, [('conservation', nat_restructure), ('concatenate-in-place', nat_concatenate_in_place), ('duplicate-aliasing', nat_duplicate_aliasing)], None),
 ]
